@@ -205,6 +205,11 @@ func S2() []*Grammar {
 		"S: A B C d ; A: a ; B: empty | b ; C: empty | c",
 		"S: L ; L: L I | empty ; I: a | b L c",
 		"S: D S | empty ; D: T O n ; T: i ; O: empty | star O",
+		// ladders of unit productions (FIRST needs several passes; each level has its own leading terminal)
+		"S: s P A z ; P: q ; A: B | a ; B: C | b ; C: D | c ; D: E | d ; E: F | e ; F: f",
+		"S: P A ; P: q ; A: B | a ; B: C | b ; C: D | c ; D: d",
+		"D: d | x D ; C: D | c ; B: C | b ; A: B | a ; S: P A z ; P: q",
+		"S: A B ; A: a | C ; C: c | D ; D: d | empty ; B: b | D",
 		// bodies of length 3+
 		"S: a S b S | empty",
 		"S: a b c | a b d | A c ; A: a b",
